@@ -297,6 +297,7 @@ def run(ctx: Ctx):
     # ---- S6 every drawn (centre, shift) gives the warp three well-separated knots --------------------------------------
     _warp_knots(ctx, rel)
     _warp_knots_table(ctx, rel)
+    _identity_grid_table(ctx, rel)
     _resample_dtype(ctx, rel)
     plumbing(ctx, "S1")
     return dict(
@@ -375,6 +376,80 @@ def _warp_knots_table(ctx: Ctx, rel: str):
     col.ob("G12", "S6", f"{rel}::warp_1d_grid::control-points-table", bad is None,
            (f"(centre, shift, length, padded extent) = {tuple(str(v_) for v_ in bad[0])}: the spline is handed the control points {bad[1]}; first frame / clamped centre "
             f"(source: [0, L-1]; destination: shifted, then [0, L-1]) / last valid frame give {bad[2]}") if bad else "", rel, f.line, sample=dict(rows=n))
+
+
+def _identity_grid_table(ctx: Ctx, rel: str):
+    """S8 by value: when only ONE axis is warped, the other axis of the sampling grid is the identity - for `grid_sample(...,
+    align_corners=False)` the centre of pixel p of an axis of extent n is (2 p + 1) / n - 1. `spec_augment_apply_parameters` is
+    interpreted over exact values (sa/interp.py + sa/teval.py) with `warp_1d_grid` and `grid_sample` as leaves (the latter records the grid
+    it is handed): with a frequency warp only, the time coordinates of the grid are the pixel centres of T frames; with a time warp only,
+    the frequency coordinates those of F coefficients. (The corner-aligned formula 2 p / (n - 1) - 1 stretches the un-warped axis.)
+    Skipped when outside the interpreted fragment."""
+    import numpy as np
+    from fractions import Fraction as Fr
+    from sa.interp import Interp
+    from sa.inteval import NotEvaluable
+    from sa.teval import frac_array
+    col, pkg = ctx.col, ctx.pkg
+    f = pkg.func(f"{MOD}::spec_augment_apply_parameters")
+    names = [p_.name for p_ in f.params]
+    N, T, F = 2, 4, 3
+    feats = frac_array(np.arange(N * T * F).reshape(N, T, F).tolist())
+    bad, rows = None, 0
+    try:
+        for which in ("freq", "time"):
+            seen = {}
+            holder = {}
+
+            def leaf(x, env):
+                if isinstance(x, ast.Call):
+                    cn = call_name(x)
+                    if cn == "warp_1d_grid":
+                        n_ = int(holder["it"].eval(x.args[3], env)) if len(x.args) > 3 else None
+                        if n_ is None:
+                            raise NotEvaluable("warp_1d_grid arguments")
+                        return frac_array([[Fr(7 * i_ + j_, 100) for j_ in range(n_)] for i_ in range(N)])
+                    if cn.endswith("grid_sample") and len(x.args) >= 2:
+                        seen["grid"] = np.asarray(holder["it"].eval(x.args[1], env), dtype=object)
+                        ac = kwarg(x, "align_corners")
+                        seen["align"] = holder["it"].eval(ac, env) if ac is not None else None
+                        return holder["it"].eval(x.args[0], env)
+                    if isinstance(x.func, ast.Attribute) and x.func.attr == "to" and len(x.args) == 1 and not x.keywords:
+                        return holder["it"].eval(x.func.value, env)
+                if isinstance(x, ast.Attribute) and x.attr in ("device", "dtype"):
+                    return "<" + x.attr + ">"
+                return None
+            it = Interp(leaf=leaf, tensors=True)
+            holder["it"] = it
+            one = frac_array([1] * N)
+            params = (None, None, one, one, None, None, None, None) if which == "freq" else (one, one, None, None, None, None, None, None)
+            env = {n_: None for n_ in names}
+            env.update({names[0]: feats, names[1]: params})
+            if len(names) > 2:
+                env[names[2]] = 1
+            kind, got = it.run(f.node, env)
+            rows += 1
+            if kind != "return" or "grid" not in seen:
+                raise NotEvaluable(f"{kind}")
+            g = seen["grid"]
+            if g.shape != (N, T, F, 2):
+                raise NotEvaluable("grid shape")
+            if which == "freq":
+                want = [[[Fr(2 * t_ + 1, T) - 1 for _ in range(F)] for t_ in range(T)] for _ in range(N)]
+                col_ = g[..., 1].tolist()
+            else:
+                want = [[[Fr(2 * f_ + 1, F) - 1 for f_ in range(F)] for _ in range(T)] for _ in range(N)]
+                col_ = g[..., 0].tolist()
+            if (col_ != want or seen.get("align") not in (False, None)) and bad is None:
+                bad = (which, [str(v_) for v_ in (np.asarray(col_, dtype=object)[0, :, 0] if which == "freq" else np.asarray(col_, dtype=object)[0, 0, :]).tolist()],
+                       [str(v_) for v_ in (np.asarray(want, dtype=object)[0, :, 0] if which == "freq" else np.asarray(want, dtype=object)[0, 0, :]).tolist()], seen.get("align"))
+    except (NotEvaluable, TypeError, ValueError, IndexError, KeyError):
+        return
+    col.count("identity_grid_table_rows", rows)
+    col.ob("G12", "S8", f"{rel}::spec_augment_apply_parameters::un-warped-axis-is-the-identity-grid", bad is None,
+           (f"with a {bad[0]} warp only, the {'time' if bad[0] == 'freq' else 'frequency'} coordinates handed to grid_sample (align_corners={bad[3]}) are "
+            f"{bad[1]}; the pixel centres (2 p + 1) / n - 1 are {bad[2]}: the axis that was not warped is resampled as well") if bad else "", rel, f.line,
+           sample=dict(rows=rows))
 
 
 def _warp_knots(ctx: Ctx, rel: str):
